@@ -88,6 +88,8 @@ def scen_record(cfg):
 
         lens = cfg["lens"]
         eps = []
+        # the connection carries a custom input name ("obs"), distinct from the producing node's name: edges must be keyed by the producer
+        iinfo = base.InputInfo(rate=None, window=None, blocking=None, skip=None, jitter=None, phase=None, delay_dist=None, delay=None, name="obs", output="a")
         for e, (la, lb, le) in enumerate(lens):
             def steps(name, n):
                 c = lambda f, k: _arr([V.integer(f"r{e}_{name}_{f}{i}") if k == "i" else V.grid(f"r{e}_{name}_{f}{i}") for i in range(n)])
@@ -96,10 +98,12 @@ def scen_record(cfg):
             msgs = base.MessageRecord(seq_out=c("out", "i"), seq_in=c("in", "i"), ts_sent=c("sent", "f"), ts_recv=c("recv", "f"), delay=c("dl", "f"))
             eps.append(base.EpisodeRecord(nodes={
                 "a": base.NodeRecord(info=None, clock=None, real_time_factor=None, ts_start=None, params=None, inputs={}, steps=steps("a", la)),
-                "b": base.NodeRecord(info=None, clock=None, real_time_factor=None, ts_start=None, params=None, inputs={"a": base.InputRecord(info=None, messages=msgs)}, steps=steps("b", lb))}))
+                "b": base.NodeRecord(info=None, clock=None, real_time_factor=None, ts_start=None, params=None, inputs={"a": base.InputRecord(info=iinfo, messages=msgs)}, steps=steps("b", lb))}))
         ok_g = []
         for ep in eps:
             g = ep.to_graph()
+            if sorted(g.edges.keys()) != [("a", "b")] or sorted(g.vertices.keys()) != ["a", "b"]:
+                return {"EpisodeRecord.to_graph has one vertex set per recorded node and one edge set per recorded connection, keyed (producing node, consuming node)": False}
             for n in ("a", "b"):
                 for fa, fb in ((g.vertices[n].seq, ep.nodes[n].steps.seq), (g.vertices[n].ts_start, ep.nodes[n].steps.ts_start), (g.vertices[n].ts_end, ep.nodes[n].steps.ts_end)):
                     ok_g += [len(fa) == len(fb)] + [_eqcell(V, x, y) for x, y in zip(fa, fb)]
@@ -122,6 +126,7 @@ def scen_record(cfg):
                 row = la_[e]
                 ok_p += [_eqcell(V, row[i], lb_[i] if i < len(lb_) else -1) for i in range(len(row))]
         return {
+            "EpisodeRecord.to_graph has one vertex set per recorded node and one edge set per recorded connection, keyed (producing node, consuming node)": True,
             "EpisodeRecord.to_graph maps steps.seq/ts_start/ts_end and messages.seq_out/seq_in/ts_recv field for field": _conj(V, ok_g),
             "ExperimentRecord.to_graph == stack of the per-episode graphs, padded with -1": _conj(V, ok_x),
             "ExperimentRecord.stack(padded): row e holds episode e's cells, -1 beyond its length": _conj(V, ok_p),
